@@ -234,7 +234,10 @@ def kkt_residual_computation(
     res = opt_problem.database.get_function_value(KKT_RESIDUAL_NORM, x_vect)
     if res is not None:
         return res
+    # LagrangeMultipliers resets the problem, including its evaluation counter.
+    current_iteration = opt_problem.evaluation_counter.current
     lagrange = LagrangeMultipliers(opt_problem)
+    opt_problem.evaluation_counter.current = current_iteration
     if opt_problem.constraints:
         lagrange.compute(x_vect, ineq_tolerance=ineq_tolerance)
         res = lagrange.kkt_residual + lagrange.constraint_violation
